@@ -104,3 +104,32 @@ def model_module(it, rel, src):
     tree = ast.parse(src) if isinstance(src, str) else src
     it.mods[rel] = (tree, {})
     return tree
+
+
+class DDict(dict):
+    """collections.defaultdict on the interpreter's values"""
+    def __init__(self, interp, factory, node, env):
+        dict.__init__(self)
+        self._interp, self._factory, self._node, self._env = interp, factory, node, env
+
+    def __missing__(self, k):
+        if self._factory is None:
+            raise KeyError(k)
+        v = self._interp.call(self._factory, [], {}, self._node, self._env)
+        self[k] = v
+        return v
+
+
+def _defaultdict(interp, args, kwargs, node, env):
+    return DDict(interp, args[0] if args else None, node, env)
+
+
+def _ordereddict(interp, args, kwargs, node, env):
+    d = {}
+    if args:
+        d.update(args[0] if isinstance(args[0], dict) else dict(args[0]))
+    return d                                    # insertion ordered, like the real one
+
+
+A.EXTERNAL_CALLS['collections.defaultdict'] = _defaultdict
+A.EXTERNAL_CALLS['collections.OrderedDict'] = _ordereddict
